@@ -23,6 +23,14 @@ claimed = {
    'For each, every vector of arrival delays and response-wire stalls with <= 2 (quick) / <= 3 (thorough) non-default answers is executed; oracle = flat byte array applied in arrival order (read data, exactly one response each, final Storage contents).',
    'Trusted: akita SerialEngine/Port/Storage; the flat reference. Accesses stay inside one 64 B interleave unit. Known finding (open): lane overtaking with pipeline width 2 comes from akita pipelining and is listed by signature; the row-miss reordering was repaired by a fix: commit.',
    'DESIGN.md §4 C17', 'E1+E4'),
+ 'C18': (MC, 'stateless deviation-bounded exhaustive exploration of the real RDMA engine under an explorer-driven environment (+ configuration lattice over GPU sets when available)',
+   'Part (b): real rdma.Comp under the real akita SerialEngine; the environment plays L1 requesters, local L2 modules, remote RDMA engines (as owners and as requesters) and the command processor. Every vector of environment answers (injection delays, stalls on the four data wires, owner reply delay and order, drain cycle, restart delay, L1 traffic arriving while paused) with <= 3 (quick) / <= 4 (thorough) non-default answers is executed; the monitor checks forwarding to the owner from the address table exactly once with unchanged address/size/data/mask, one reply to the originator with the original ID and the owner payload, DrainRsp only with both transaction tables empty, nothing forwarded between DrainRsp and RestartRsp, and paused traffic served after restart. Part (a) (same final data on 1/2/4 GPUs, plain and unified) is a configuration lattice run by the same binary.',
+   'Trusted: akita SerialEngine/Port; the monitor; valid control protocol order; unique addresses per scenario. Bounds: 2-3 accesses per direction, port buffers 1-2, drain at cycles 1-12.',
+   'DESIGN.md §4 C18', 'E1+E4'),
+ 'C19': (MC, 'stateless deviation-bounded exhaustive exploration of two real page-migration controllers under an explorer-driven environment',
+   'Two real PageMigrationControllers under one real akita SerialEngine; the environment owns both local memories (byte arrays), both command processors and the inter-PMC wire. Page sizes 64/128/256 B x 6 request sequences (single, queued, arriving during a migration, both directions, staggered, three). Every vector of environment answers (memory reply delay/order, wire delay, stalls on all six 1-entry ports) with <= 2 (quick) / <= 3 (thorough) non-default answers is executed. Oracle: destination page == source page, no other byte of either memory changed, one completion per request in order, completion only after all write acknowledgements and after the page is fully copied, queued requests served.',
+   'Trusted: akita SerialEngine/Port; the byte-array memories. No concurrent writer of migrating pages; FIFO network. The driver-side mapping update is covered by C10.',
+   'DESIGN.md §4 C19', 'E1+E4'),
 }
 checks = []
 for p in props:
